@@ -931,4 +931,6 @@ def base_env(forest, modname):
     """Environment for evaluating expressions that occur inside functions of `modname`:
     the module's own constants and the imported module namespaces."""
     ns = module_consts(forest, modname)
-    return dict(ns._values)
+    env = dict(ns._values)
+    env['__modname__'] = modname
+    return env
